@@ -313,4 +313,7 @@ def replay(case):
         return []
     import ast
     parsed = (ast.literal_eval(c[0]), c[1], c[2] == "True", int(c[3]), None if c[4] == "None" else int(c[4]), c[5] == "True") + ((c[6],) if len(c) > 6 else ())
+    if "choices" in case:
+        obs_vs, ch = scheddfs.replay_choices(functools.partial(sched_execute, parsed), case["choices"])
+        return [Violation(k, d) for k, d in sched_check(obs_vs)]
     return [Violation(k, d) for k, d in run_case(parsed)]
